@@ -482,11 +482,7 @@ impl<S: USet> Eng<S> {
                 self.hw[i] = self.oracle[i].len();
                 self.hinted[i] = false;
                 let rp = self.repr(i);
-                if S::TYPED {
-                    // Set64 / SetUsize collect by inserting one at a time into a new set
-                    self.emit(&format!("new {}", i));
-                }
-                let mut l = format!("{} {} {}", if S::TYPED { "ext" } else { "col" }, i, v.len());
+                let mut l = format!("col {} {}", i, v.len());
                 for x in v {
                     write!(l, " {}", S::enc(*x)).unwrap();
                 }
